@@ -61,8 +61,9 @@ CHECKS.update({
  "C15": dict(level="model_checking", ref="DESIGN.md 7 C15",
    text="IpGen.tla: the range-set algorithm of ip_generator.rs transcribed; TLC checks in-pool / disjointness / exact free set / real exhaustion for every history of fetch, "
         "return and block over all pools of a 3-bit space; the real IpGenerator under random histories in 64-address windows at 0.0.0.0, 255.255.255.192 and other bases "
-        "validated by TraceIpGen.tla; DHCP leases: full-stack DHCP runs validated by TraceDhcp.tla (see level_note).",
-   note=FN_NOTE, technique="TLA+ model checking (TLC) + trace validation of real IpGenerator histories"),
+        "validated by TraceIpGen.tla; Dhcp.tla: clients, server pool, offers / requests / acks / releases in any order with duplication, TLC checks distinct in-pool leases and that a client "
+        "only adopts an address the server bound to it; a real DhcpServer with 1-12 real DhcpClients under delayed, reordered and duplicated DHCP frames validated by TraceDhcp.tla.",
+   note=FN_NOTE, technique="TLA+ model checking (TLC) + trace validation of real IpGenerator histories and real DHCP server/client runs"),
 })
 
 NET_NOTE = FN_NOTE + " Full-stack runs use the real machines, protocols and networks on a paused current_thread tokio clock (virtual time); the frame hook of feature verif observes / drops frames."
